@@ -25,6 +25,17 @@
 (*      sample_from_prior(n)    = setting_closure(self, prior.sample()) -> _set_p *)
 (*      register_constraint     = replace | new.intersect(old); then       *)
 (*                                initialize(raw_p = new.initial_value)    *)
+(*      load_state_dict         = the bounds are BUFFERS of the constraint: *)
+(*                                the saved bounds are copied into the      *)
+(*                                existing constraint object (its transform *)
+(*                                and class stay), the saved raw value into *)
+(*                                the Parameter                             *)
+(*      con.lower_bound = t     = buffer assignment / in-place copy_ / fill_ *)
+(*      .double() / .to() / .float().double() = Interval._apply on the bounds *)
+(*      copy.deepcopy / pickle  = the history continues on the copy         *)
+(*    After each of them `con` holds the bounds the constraint's attributes *)
+(*    and the module's state_dict now REPORT, and every property below is   *)
+(*    stated against these CURRENT bounds.                                  *)
 (*    The transforms enter only through their CONTRACT (below).            *)
 (*  - SEMANTIC (what C17 states): `allowed`, the value a read must return  *)
 (*    (a grid point, or AnyV = anywhere in the closed interval), and for    *)
@@ -32,7 +43,8 @@
 (*    be rejected (outside, NaN), 2 undetermined by the property (exactly  *)
 (*    a bound, an infinite or saturating raw value, intersect) - there the *)
 (*    semantic machine follows the outcome.                                *)
-(* Properties: InBounds, Agree, SetThenRead, RejectIffOutside.             *)
+(* Properties: InBounds, Agree, ContractNow, SetThenRead, RejectIffOutside, *)
+(* RawInitChecked, LoadRestores, BoundsFollow.                             *)
 (***************************************************************************)
 EXTENDS Integers, Sequences, FiniteSets, TLC
 
@@ -44,6 +56,11 @@ CONSTANTS Cons,            \* sequence of constraint records; Cons[1] is the one
           OptK,            \* finite raw classes an optimiser step can move to
           RegA,            \* <<i, replace>>: register_constraint(raw_p, Cons[i], replace = (replace = 1))
           SampV,           \* classes a registered prior is concentrated on (sample_from_prior)
+          LoadA,           \* <<i, v>>: load_state_dict from a model of the same architecture whose constraint has the
+                           \* bounds of Cons[i] and whose parameter was set to v (v = AnyV: left at its raw default)
+          BoundA,          \* <<side, b>>: the lower (side = 0) / upper (side = 1) bound buffer is assigned grid point b
+          ConvA,           \* 0 = .double() / .to(float64) / .cpu() (identity on float64 state), 1 = .float().double()
+          CopyA,           \* 0 = copy.deepcopy of the module, 1 = pickle round trip; the history continues on the copy
           ClosV,           \* values handed to the prior's setting closure directly
           MaxLen, RecordHist,
           IntersectRaises  \* code-shaped: Interval.intersect compares bound methods, which are never equal
@@ -64,6 +81,8 @@ Interior(c, v) == v # NaN /\ c.lo < v /\ v < c.hi
 Range(c)       == c.lo..c.hi
 \* what C17 says about assigning v under c
 Sem(c, v)      == IF Interior(c, v) THEN 1 ELSE IF v \in {c.lo, c.hi} THEN 2 ELSE 0
+
+KindOf(c) == IF c.lo = NInf THEN "LT" ELSE IF c.hi = PInf THEN "GT" ELSE "IV"
 
 \* ---- raw values and the transform contract -----------------------------------------------------
 \* raw is one of  [k |-> "inv", v |-> x]  the finite number con.inverse_transform(x), x strictly inside
@@ -99,25 +118,27 @@ IRep(c, v) == IF v = c.lo THEN -1 ELSE IF v = c.hi THEN 14 ELSE v
 Monotone(c)          == \A x, y \in RawPts(c) : x <= y => TRep(c, x) <= TRep(c, y)
 RangeClosed(c)       == \A x \in RawPts(c) : Inside(c, TRep(c, x))
 InverseOnInterior(c) == \A v \in V : Interior(c, v) => TRep(c, IRep(c, v)) = v
-Contract == \A i \in 1..Len(Cons) : Monotone(Cons[i]) /\ RangeClosed(Cons[i]) /\ InverseOnInterior(Cons[i])
+ContractOf(c) == Monotone(c) /\ RangeClosed(c) /\ InverseOnInterior(c)
+Contract == \A i \in 1..Len(Cons) : ContractOf(Cons[i])
 
 \* ---- bookkeeping ------------------------------------------------------------------------------
 OpNo(op) == CASE op = "Set" -> 1 [] op = "InitRaw" -> 2 [] op = "ByName" -> 3 [] op = "OptStep" -> 4
               [] op = "Register" -> 5 [] op = "Sample" -> 6 [] op = "Closure" -> 7
+              [] op = "Load" -> 8 [] op = "Bound" -> 9 [] op = "Convert" -> 10 [] op = "Copy" -> 11
 Setters == {"Set", "ByName", "Sample", "Closure"}
 B(x) == IF x THEN 1 ELSE 0
 
 Room == RecordHist => Len(hist) < MaxLen
 \* history entry: <<op, a, b, sem, acc (outcome the code-shaped machine takes), allowed', lo', hi'>>
 Rec(op, a, b, sem, acc, al, c) ==
-  /\ last' = [op |-> op, v |-> a, sem |-> sem, acc |-> acc]
+  /\ last' = [op |-> op, v |-> a, b |-> IF op = "Load" THEN b ELSE 0, sem |-> sem, acc |-> acc]
   /\ hist' = IF RecordHist THEN Append(hist, <<OpNo(op), a, b, sem, B(acc), al, c.lo, c.hi>>) ELSE hist
 
 Init ==
   /\ con = Cons[1]
   /\ raw = IF Cons[1].iv = NoIV THEN R("fin", 2) ELSE Inv(Cons[1], Cons[1].iv)     \* register_constraint in __init__
   /\ allowed = IF Cons[1].iv = NoIV THEN AnyV ELSE Cons[1].iv
-  /\ last = [op |-> "Init", v |-> 0, sem |-> 1, acc |-> TRUE]
+  /\ last = [op |-> "Init", v |-> 0, b |-> 0, sem |-> 1, acc |-> TRUE]
   /\ hist = <<>>
 
 \* module.initialize(raw_p = r): the bound check of Module.initialize, then copy_
@@ -188,6 +209,46 @@ Register(i, rep) ==
          /\ UNCHANGED <<con, raw, allowed>>
          /\ Rec("Register", i, 0, 2, FALSE, allowed, con)
 
+\* ---- operations that change the BOUNDS of the existing constraint object ---------------------------
+\* module.load_state_dict(source.state_dict()): source = same architecture, its constraint has the bounds of Cons[i]
+\* (same class of constraint: the class and the transform are not part of a state dict) and its parameter was
+\* assigned v through the setter.  The restored parameter must read v, inside the RESTORED bounds.
+LoadState(i, v) ==
+  /\ Room
+  /\ LET c == Cons[i]
+         n == [con EXCEPT !.lo = c.lo, !.hi = c.hi, !.iv = NoIV] IN      \* (the initial value is only read at registration)
+       /\ KindOf(c) = KindOf(con)
+       /\ v = AnyV \/ Interior(c, v)
+       /\ con' = n
+       /\ raw' = IF v = AnyV THEN R("fin", 2) ELSE Inv(n, v)
+       /\ allowed' = v
+       /\ Rec("Load", v, i, 1, TRUE, v, n)
+
+\* constraint.lower_bound = t / constraint.upper_bound = t (also in place): the raw value keeps its place on the real
+\* line, an infinite raw value keeps reading the (new) bound
+AssignBound(side, b) ==
+  /\ Room
+  /\ LET n == IF side = 0 THEN [con EXCEPT !.lo = b, !.iv = NoIV] ELSE [con EXCEPT !.hi = b, !.iv = NoIV] IN
+       /\ (IF side = 0 THEN b # con.lo ELSE b # con.hi) /\ n.lo < n.hi /\ KindOf(n) = KindOf(con)
+       /\ con' = n
+       /\ raw' = Rebase(raw)
+       /\ allowed' = AnyV
+       /\ Rec("Bound", side, b, 1, TRUE, AnyV, n)
+
+\* dtype / device conversion: the identity on float64 state (k = 0); through float32 and back (k = 1) bounds and raw
+\* value are rounded - the bounds the attributes report afterwards are the current ones
+Convert(k) ==
+  /\ Room
+  /\ con' = con
+  /\ raw' = IF k = 1 THEN Rebase(raw) ELSE raw
+  /\ allowed' = IF k = 1 THEN AnyV ELSE allowed
+  /\ Rec("Convert", k, 0, 1, TRUE, allowed', con)
+
+Copy(k) ==
+  /\ Room
+  /\ UNCHANGED <<con, raw, allowed>>
+  /\ Rec("Copy", k, 0, 1, TRUE, allowed, con)
+
 Next ==
   \/ \E v \in SetV  : Set(v)
   \/ \E a \in RawA  : InitRaw(a)
@@ -196,6 +257,10 @@ Next ==
   \/ \E g \in RegA  : Register(g[1], g[2])
   \/ \E v \in SampV : Sample(v)
   \/ \E v \in ClosV : Closure(v)
+  \/ \E g \in LoadA  : LoadState(g[1], g[2])
+  \/ \E g \in BoundA : AssignBound(g[1], g[2])
+  \/ \E k \in ConvA  : Convert(k)
+  \/ \E k \in CopyA  : Copy(k)
 
 Spec == Init /\ [][Next]_vars
 
@@ -207,6 +272,9 @@ TypeOK ==
 
 \* the value read back is inside the closed interval in every reachable state
 InBounds == \A x \in T(con, raw) : Inside(con, x)
+
+\* the transform contract holds for the CURRENT bounds, however they were reached
+ContractNow == ContractOf(con)
 
 \* the code-shaped machine reads what the property says must be read
 Agree == allowed # AnyV => T(con, raw) = {allowed}
@@ -221,6 +289,20 @@ RejectIffOutside ==
         /\ (last'.sem = 1 => last'.acc)
         /\ (last'.sem = 0 => ~last'.acc)
         /\ (~last'.acc => raw' = raw /\ con' = con /\ allowed' = allowed) ]_vars
+
+\* a restored parameter reads the value that was saved, and the bounds are the saved ones
+LoadRestores ==
+  [][ last'.op = "Load" =>
+        /\ con'.lo = Cons[last'.b].lo /\ con'.hi = Cons[last'.b].hi /\ con'.tf = con.tf
+        /\ (last'.v # AnyV => T(con', raw') = {last'.v}) ]_vars
+
+\* changing the bounds, converting and copying never move the value out of the current interval and keep a
+\* saturated parameter on the (current) bound
+BoundsFollow ==
+  [][ last'.op \in {"Bound", "Convert", "Copy"} =>
+        /\ (raw.k = "ninf" => T(con', raw') = {con'.lo})
+        /\ (raw.k = "pinf" => T(con', raw') = {con'.hi})
+        /\ (last'.op = "Copy" \/ (last'.op = "Convert" /\ last'.v = 0) => T(con', raw') = T(con, raw)) ]_vars
 
 \* initialize(raw_p = NaN) is rejected, finite raw values are accepted
 RawInitChecked == [][ last'.op = "InitRaw" => /\ (last'.sem = 1 => last'.acc) /\ (last'.sem = 0 => ~last'.acc /\ raw' = raw) ]_vars
